@@ -51,4 +51,18 @@ def run():
     probe("dataclass match_args order", lambda: Bounds.__match_args__ == ("lower", "upper"))
     probe("sorted is stable and uses __lt__", lambda: sorted([(1, "b"), (0, "z"), (1, "a")], key=lambda t: t[0])
           == [(0, "z"), (1, "b"), (1, "a")])
+    # declared member lists of library enums (used as finite datatypes by the verifier)
+    import importlib
+    from pyvc import spec
+    for mod in ("pd_status",):
+        try:
+            importlib.import_module("contracts." + mod)
+        except Exception as e:  # pylint: disable=broad-except
+            results[f"import contracts.{mod}"] = f"error: {e}"
+    for qual, members in spec.EXT_ENUMS.items():
+        def same(qual=qual, members=members):
+            modname, _, name = qual[4:].rpartition(".")
+            cls = getattr(importlib.import_module(modname), name)
+            return [m.name for m in cls] == list(members)
+        probe(f"enum members of {qual[4:]}", same)
     return results
